@@ -51,6 +51,19 @@ def js_round(x: float, ndigits: int = 0) -> float:
             return math.ceil(x * multiplier - 0.5) / multiplier
 
 
+class _PendingThrow(Exception):
+    """A script exception on its way to a handler that lives below a native call.
+
+    Raised by VM._throw to unwind the Python frames of the native function (an
+    array method running a callback, a getter, Function.prototype.call ...)
+    before the handler's own run loop takes over.
+    """
+
+    def __init__(self, value: JSValue):
+        super().__init__("pending script exception")
+        self.value = value
+
+
 @dataclass
 class ClosureCell:
     """A cell for closure variable - allows sharing between scopes."""
@@ -131,6 +144,9 @@ class VM:
         self.exception: Optional[JSValue] = None
         # (frame_idx, catch_ip, operand stack depth at TRY_START)
         self.exception_handlers: List[Tuple[int, int, int]] = []
+        # Call-stack depth at entry of every _call_callback that is running:
+        # frames at or above the last entry belong to the innermost callback
+        self._callback_depths: List[int] = []
 
     def run(self, compiled: CompiledFunction) -> JSValue:
         """Run compiled bytecode and return result."""
@@ -219,33 +235,40 @@ class VM:
                 arg = bytecode[frame.ip]
                 frame.ip += 1
 
-            # Execute opcode - wrap in try/except to catch Python JS exceptions
-            try:
-                self._execute_opcode(op, arg, frame)
-            except JSTypeError as e:
-                # Convert Python JSTypeError to JavaScript TypeError
-                self._handle_python_exception("TypeError", str(e))
-            except JSReferenceError as e:
-                # Convert Python JSReferenceError to JavaScript ReferenceError
-                self._handle_python_exception("ReferenceError", str(e))
-            except JSRangeError as e:
-                # Convert Python JSRangeError to JavaScript RangeError
-                self._handle_python_exception("RangeError", str(e))
-            except (TimeLimitError, MemoryLimitError):
-                raise
-            except JSError as e:
-                # Any other engine error raised while running (a SyntaxError from
-                # eval, new Function, JSON.parse or new RegExp, an error from a
-                # nested evaluation) is catchable by an enclosing try/catch
-                if not self.exception_handlers:
-                    raise
-                self._handle_python_exception(e.name, e.message)
+            self._run_opcode(op, arg, frame)
 
             # Check if frame was popped (return)
             if not self.call_stack:
                 break
 
         return self.stack.pop() if self.stack else UNDEFINED
+
+    def _run_opcode(self, op: OpCode, arg: Optional[int], frame: CallFrame) -> None:
+        """Execute one opcode; engine errors raised in Python become script exceptions."""
+        try:
+            self._execute_opcode(op, arg, frame)
+        except _PendingThrow as pending:
+            # A callback run by a native threw past it: the native is unwound,
+            # look for the handler again from this run loop
+            self._throw(pending.value)
+        except JSTypeError as e:
+            # Convert Python JSTypeError to JavaScript TypeError
+            self._handle_python_exception("TypeError", str(e))
+        except JSReferenceError as e:
+            # Convert Python JSReferenceError to JavaScript ReferenceError
+            self._handle_python_exception("ReferenceError", str(e))
+        except JSRangeError as e:
+            # Convert Python JSRangeError to JavaScript RangeError
+            self._handle_python_exception("RangeError", str(e))
+        except (TimeLimitError, MemoryLimitError):
+            raise
+        except JSError as e:
+            # Any other engine error raised while running (a SyntaxError from
+            # eval, new Function, JSON.parse or new RegExp, an error from a
+            # nested evaluation) is catchable by an enclosing try/catch
+            if not self.exception_handlers:
+                raise
+            self._handle_python_exception(e.name, e.message)
 
     def _execute_opcode(self, op: OpCode, arg: Optional[int], frame: CallFrame) -> None:
         """Execute a single opcode."""
@@ -1615,10 +1638,8 @@ class VM:
         if hasattr(func, "_original_func"):
             func = func._original_func
 
-        # Use existing invoke mechanism
-        self._invoke_js_function(func, args, this_val)
-        result = self._execute()
-        return result
+        # Run the function to completion (and only the function)
+        return self._call_callback(func, args, this_val)
 
     def _make_regexp_method(self, re: JSRegExp, method: str) -> Any:
         """Create a bound RegExp method."""
@@ -2372,57 +2393,63 @@ class VM:
                 callback, args, this_val if this_val is not None else UNDEFINED
             )
 
-            # Execute until the call returns (back to original call stack depth)
-            while len(self.call_stack) > call_stack_len:
-                self._check_limits()
-                frame = self.call_stack[-1]
-                func = frame.func
-                bytecode = func.bytecode
+            # A throw that no handler inside the callback catches must unwind
+            # the native function that called us (see _throw)
+            self._callback_depths.append(call_stack_len)
+            try:
+                # Execute until the call returns (back to original call stack depth)
+                while len(self.call_stack) > call_stack_len:
+                    self._check_limits()
+                    frame = self.call_stack[-1]
+                    func = frame.func
+                    bytecode = func.bytecode
 
-                if frame.ip >= len(bytecode):
-                    self.call_stack.pop()
-                    if len(self.stack) > stack_len:
-                        return self.stack.pop()
-                    return UNDEFINED
+                    if frame.ip >= len(bytecode):
+                        self.call_stack.pop()
+                        if len(self.stack) > stack_len:
+                            return self.stack.pop()
+                        return UNDEFINED
 
-                op = OpCode(bytecode[frame.ip])
-                frame.ip += 1
-
-                # Get argument if needed
-                arg = None
-                if op in (
-                    OpCode.JUMP,
-                    OpCode.JUMP_IF_FALSE,
-                    OpCode.JUMP_IF_TRUE,
-                    OpCode.TRY_START,
-                ):
-                    low = bytecode[frame.ip]
-                    high = bytecode[frame.ip + 1]
-                    arg = low | (high << 8)
-                    frame.ip += 2
-                elif op in (
-                    OpCode.LOAD_CONST,
-                    OpCode.LOAD_NAME,
-                    OpCode.STORE_NAME,
-                    OpCode.LOAD_LOCAL,
-                    OpCode.STORE_LOCAL,
-                    OpCode.LOAD_CLOSURE,
-                    OpCode.STORE_CLOSURE,
-                    OpCode.LOAD_CELL,
-                    OpCode.STORE_CELL,
-                    OpCode.CALL,
-                    OpCode.CALL_METHOD,
-                    OpCode.NEW,
-                    OpCode.BUILD_ARRAY,
-                    OpCode.BUILD_OBJECT,
-                    OpCode.BUILD_REGEX,
-                    OpCode.MAKE_CLOSURE,
-                    OpCode.TYPEOF_NAME,
-                ):
-                    arg = bytecode[frame.ip]
+                    op = OpCode(bytecode[frame.ip])
                     frame.ip += 1
 
-                self._execute_opcode(op, arg, frame)
+                    # Get argument if needed
+                    arg = None
+                    if op in (
+                        OpCode.JUMP,
+                        OpCode.JUMP_IF_FALSE,
+                        OpCode.JUMP_IF_TRUE,
+                        OpCode.TRY_START,
+                    ):
+                        low = bytecode[frame.ip]
+                        high = bytecode[frame.ip + 1]
+                        arg = low | (high << 8)
+                        frame.ip += 2
+                    elif op in (
+                        OpCode.LOAD_CONST,
+                        OpCode.LOAD_NAME,
+                        OpCode.STORE_NAME,
+                        OpCode.LOAD_LOCAL,
+                        OpCode.STORE_LOCAL,
+                        OpCode.LOAD_CLOSURE,
+                        OpCode.STORE_CLOSURE,
+                        OpCode.LOAD_CELL,
+                        OpCode.STORE_CELL,
+                        OpCode.CALL,
+                        OpCode.CALL_METHOD,
+                        OpCode.NEW,
+                        OpCode.BUILD_ARRAY,
+                        OpCode.BUILD_OBJECT,
+                        OpCode.BUILD_REGEX,
+                        OpCode.MAKE_CLOSURE,
+                        OpCode.TYPEOF_NAME,
+                    ):
+                        arg = bytecode[frame.ip]
+                        frame.ip += 1
+
+                    self._run_opcode(op, arg, frame)
+            finally:
+                self._callback_depths.pop()
 
             # Get result from stack
             if len(self.stack) > stack_len:
@@ -2556,6 +2583,14 @@ class VM:
                 exc.set("columnNumber", column)
 
         if self.exception_handlers:
+            if (
+                self._callback_depths
+                and self.exception_handlers[-1][0] < self._callback_depths[-1]
+            ):
+                # The nearest handler belongs to a frame below the native function
+                # that is running this callback: leave the native first
+                raise _PendingThrow(exc)
+
             frame_idx, catch_ip, stack_depth = self.exception_handlers.pop()
 
             # Unwind call stack
